@@ -175,6 +175,18 @@ PROPS["C10"] = {
     ],
 }
 
+# ---------------------------------------------------------------- C05 (struct level)
+PROPS["C05"] = {
+    "level_text": "Struct-level round trip only: a Media (type, id 0-2 alphanumerics, back-channel flag, profile, control) with one format (Opus, LPCM over depth x rate x channels, G711 dynamic and static, VP8 with optional max-fr, MPEG-TS; dynamic payload type symbolic over 96..127) is marshalled by the real Media.Marshal into pion's MediaDescription and parsed back by the real Media.Unmarshal / format.Unmarshal into an equal value (format type, payload type, clock/channel parameters, optional fields).",
+    "level_note": "Outside: the SDP TEXT layer (pion/sdp marshalling and the 750-line sdpunmarshaler string state machine: path-explosive for the interpreter), Session-level attributes and FEC groups, formats whose parameters are codec configuration blobs (H264/H265/MPEG-4), MIKEY key-mgmt attribute, totality of parsing on arbitrary SDP text.",
+    "runs": [
+        R("media-fmt%d" % f, "pkg/description", "pkg/description", ["ZzC05MediaRT"], flags={"concoff": True}, params={"FMT": f},
+          tiers=("quick", "thorough") if f in (0, 2, 4, 5) else ("thorough",))
+        for f in (0, 1, 2, 3, 4, 5)
+    ],
+    "parallel": 3,
+}
+
 # ---------------------------------------------------------------- C12 (sequential kernel only) / C02 kernels
 PROPS["C12"] = {
     "level_text": "Sequential kernel only: description.Media.URL (the client's control-attribute resolution, executed with the real net/url code) on a control attribute made of a fixed prefix/suffix and 1..2 (quick) / 3 (thorough) fully symbolic bytes never returns (nil, nil) and never panics, so the client always has either a URL for SETUP or an error to report.",
@@ -236,4 +248,4 @@ NOT_APPLICABLE = {
     "C12": "every API call returning within its timeout, Close leaving no goroutine or socket: scheduling and I/O facts of a 2500-line channel-driven run loop (DESIGN.md §7)",
     "C13": "quantifies over schedules and crash points of real goroutines; no sequential kernel says anything about bounded-time Close or leaked goroutines (DESIGN.md §7)",
 }
-NOT_APPLICABLE["C05"] = "SDP text marshalling/parsing (pion/sdp + the 750-line sdpunmarshaler string state machine) is path-explosive for the symbolic interpreter; the struct-level round trip was not built in this session (DESIGN.md §6 C05)"
+
